@@ -151,7 +151,8 @@ def hygiene():
 
 
 def rundir(pid):
-    d = os.path.join(BUILD, "run", pid)
+    # CE_RUN_TAG separates the scratch files of concurrent runs of the same property (e.g. against different checkouts)
+    d = os.path.join(BUILD, "run", os.environ.get("CE_RUN_TAG", ""), pid)
     os.makedirs(d, exist_ok=True)
     return d
 
